@@ -334,6 +334,16 @@ class _RawConfigParser(configparser.RawConfigParser):
     super(_RawConfigParser, self).__init__(dict_type = _ConfigParserDict, default_section = "Variables", interpolation = configparser.ExtendedInterpolation())
     self._sections = collections.OrderedDict()
 
+  def options(self, section):
+    """Options of `section` itself. [Variables] is the default section: it supplies values for interpolation
+    but its keys are not entries of the other sections."""
+    if section == self.default_section:
+      return list(self._defaults.keys())
+    try:
+      return list(self._sections[section].keys())
+    except KeyError:
+      raise configparser.NoSectionError(section)
+
   def optionxform(self, option):
     # Option keys are compared without regard to embedded whitespace (see _ConfigParserDict): apply the same
     # transformation here so that duplicate detection, has_option() and look-ups agree with what is stored.
